@@ -440,14 +440,20 @@ func CreateTemp(dir, pattern string) (*File, error) {
 	if _, _, err := pre("createtemp", filepath.Join(dir, prefix+"*"+suffix), "", true, 0); err != nil {
 		return nil, err
 	}
-	tp, n := vrt.TempSeq()
-	name := filepath.Join(dir, prefix+tempName(tp, n)+suffix)
-	f, err := os.OpenFile(name, os.O_RDWR|os.O_CREATE|os.O_EXCL, 0o600)
-	if err != nil {
-		return nil, err
+	for try := 0; try < 10000; try++ {
+		tp, n := vrt.TempSeq()
+		name := filepath.Join(dir, prefix+tempName(tp, n)+suffix)
+		f, err := os.OpenFile(name, os.O_RDWR|os.O_CREATE|os.O_EXCL, 0o600)
+		if err != nil {
+			if os.IsExist(err) {
+				continue // a file left behind by an earlier process (crash): take the next name, as os.CreateTemp retries
+			}
+			return nil, err
+		}
+		stamp(name)
+		return wrap(f, true), nil
 	}
-	stamp(name)
-	return wrap(f, true), nil
+	return nil, errors.New("vos: no free temp name")
 }
 
 // tempName: the main thread's files are numbered 1, 2, ...; other threads carry their identity.
